@@ -425,9 +425,17 @@ package commitlog
 //@   assumes k != nil
 //@   modifies nothing
 //@   ensures result == k.offset
+// the table slot of key k receives only offsets of messages that HAVE the key k: a message without a key must not
+// enter the table (string(nil) == "" is also the slot of the empty, non-nil key)
+//@ ghost var scannedKeyless bool
+//@ ghost var scannedKey string
 //@ func (*compactCleaner).scanSegments serves C08
 //@   loop 2 invariant err == nil ==> len(ms) > 28
+//@   ghost after call Key: ghost.scannedKeyless := isnil(ret0)
+//@   ghost after call Key: ghost.scannedKey := str(ret0)
 //@   call LoadOrStore requires [only-committed-offsets] offset <= hw
+//@   call LoadOrStore requires [only-messages-with-a-key-enter-the-table] !ghost.scannedKeyless
+//@   call LoadOrStore requires [under-its-own-key] arg1 == boxed(ghost.scannedKey)
 //@   call (*keyOffset).set requires [latest-offset-recorded] arg1 == offset
 
 // message set header: offset(8) timestamp(8) leader epoch(8) size(4), big endian
@@ -477,6 +485,7 @@ package commitlog
 //@   ghost at loop 1: ghost.wrote := false
 //@   ghost after call WriteMessageSet: ghost.wrote := ret0 == nil
 //@   loop 1 backedge requires [survivor-kept] (isnil(key) || offset == latestOffset || offset >= hw) ==> ghost.wrote
+//@   call Load requires [table-consulted-for-the-message's-own-key] arg1 == boxed(str(key))
 //@   call entriesForMessageSet requires [indexed-as-written] arg1 == ms && arg0 == cleaned.position
 //@   call WriteMessageSet requires [written-unchanged] arg0 == cleaned && arg1 == ms && arg2 == entries
 //@   call (*leaderEpochCache).Assign requires [epoch-of-survivor] arg1 == leaderEpoch && arg2 == offset
